@@ -1,0 +1,6 @@
+//go:build !verif
+
+package spine
+
+// yield points are only active with the build tag "verif"
+func verifYield(string) {}
